@@ -131,6 +131,35 @@ def _propagate_copies(fn: ast.AST) -> None:
     do_block(fn.body)
 
 
+def _hoist_common_tails(fn: ast.AST) -> None:
+    """`if c: A; T  else: B; T` is `if c: A  else: B` followed by T, for identical simple statements T (the copies the early-return
+    structuring of an expanded helper leaves behind)."""
+    def process(block: List[ast.stmt]) -> None:
+        k = 0
+        while k < len(block):
+            st = block[k]
+            for fld in ("body", "orelse", "finalbody"):
+                sub = getattr(st, fld, None)
+                if isinstance(sub, list) and sub and isinstance(sub[0], ast.stmt) and not isinstance(st, (ast.FunctionDef, ast.AsyncFunctionDef, ast.ClassDef)):
+                    process(sub)
+            for h in getattr(st, "handlers", []) or []:
+                process(h.body)
+            if isinstance(st, ast.If) and st.body and st.orelse:
+                moved = []
+                while st.body and st.orelse and isinstance(st.body[-1], (ast.Assign, ast.AugAssign, ast.AnnAssign, ast.Expr)) \
+                        and ast.dump(st.body[-1]) == ast.dump(st.orelse[-1]):
+                    # the hoisted statement must not depend on what the remaining branch bodies still decide differently: it is the same
+                    # text evaluated in the same state either way, so moving it below the `if` is always sound
+                    moved.insert(0, st.body.pop())
+                    st.orelse.pop()
+                if moved:
+                    if not st.body:
+                        st.body = [ast.copy_location(ast.Pass(), st)]
+                    block[k + 1:k + 1] = moved
+            k += 1
+    process(fn.body)
+
+
 def _inline_local_procs(fn: ast.AST) -> None:
     """a local procedure (`def move(bound, outside): xn[outside] = bound[outside]; ..` - statements only, no result) that is only
     ever called as a statement `move(a, b)` is expanded at its calls: the parameters become temporaries bound to the arguments, the
@@ -1017,6 +1046,7 @@ class Inliner:
                 new = _FoldLiteralTests().visit(new)
                 new = _SplitTupleAssign().visit(new)
                 _inline_local_procs(new)
+                _hoist_common_tails(new)
                 _propagate_copies(new)
                 _sink_temp_copies(new)
                 from .model import _sink_returns, _unflag_loops
